@@ -568,7 +568,11 @@ def check_heap_scheduler(src: Source, rep: Report, unit: CUnit) -> None:
                f"pickled state keeps {sorted(keep)}", f"the pickled state drops {sorted(deleted & keep)}")
         # entry iteration: index from 0 in steps of one; every entry fetched is appended; the loop ends only at the NULL handler
         ent = _lib_calls(gs, aliases, "entry")
-        wl = [n for n in ast.walk(gs) if isinstance(n, ast.While)]
+        def counts_from_zero(it: ast.AST) -> bool:
+            return isinstance(it, ast.Call) and norm(it.func) in ("count", "itertools.count") and not it.keywords and (
+                not it.args or (isinstance(it.args[0], ast.Constant) and it.args[0].value == 0 and (
+                    len(it.args) == 1 or (isinstance(it.args[1], ast.Constant) and it.args[1].value == 1))))
+        wl = [n for n in ast.walk(gs) if isinstance(n, ast.While) or (isinstance(n, ast.For) and counts_from_zero(n.iter))]
         unconditional = False
         iterates = False
         if len(wl) == 1 and appends and ent:
@@ -593,22 +597,25 @@ def check_heap_scheduler(src: Source, rep: Report, unit: CUnit) -> None:
                           and not any(n is x for x in ast.walk(w))]
                 in_loop = [c for c in ent if any(c is x for x in ast.walk(w))]
                 before = [c for c in ent if c not in in_loop]
-                true_loop = isinstance(w.test, ast.Constant) and w.test.value is True
-                if true_loop:
+
+                def kinds_of(body_) -> List[str]:
+                    ks = ["fetch" if any(c is x for c in in_loop for x in ast.walk(st)) else "stop" if null_break(st)
+                          else "append" if any(x is appends[0] for x in ast.walk(st)) else "advance" if st in incs else "other" for st in body_]
+                    return [k for k in ks if k != "other"]
+                core_ = kinds_of(wbody)
+                if isinstance(w, ast.For):
+                    # for index in count(): fetch, stop at NULL, append  (the index advances by itself, from 0 in steps of one)
+                    shape = norm(w.target) == iv and len(in_loop) == 1 and not before and core_ == ["fetch", "stop", "append"]
+                    iterates = shape and not incs and not other_writes
+                elif isinstance(w.test, ast.Constant) and w.test.value is True:
                     # fetch, stop at NULL, append, advance
-                    kinds = ["fetch" if any(c is x for c in in_loop for x in ast.walk(st)) else "stop" if null_break(st)
-                             else "append" if any(x is appends[0] for x in ast.walk(st)) else "advance" if st in incs else "other"
-                             for st in wbody]
-                    core_ = [k for k in kinds if k != "other"]
                     shape = len(in_loop) == 1 and not before and core_[:2] == ["fetch", "stop"] and sorted(core_[2:]) == ["advance", "append"]
+                    iterates = shape and len(incs) == 1 and len(starts) == 1 and len(other_writes) == 1
                 else:
                     # fetch before the loop, loop while not NULL: append, advance, fetch
-                    kinds = ["fetch" if any(c is x for c in in_loop for x in ast.walk(st)) else
-                             "append" if any(x is appends[0] for x in ast.walk(st)) else "advance" if st in incs else "other" for st in wbody]
-                    core_ = [k for k in kinds if k != "other"]
                     shape = len(in_loop) == 1 and len(before) == 1 and empty_atom(w.test) is False and "event_handler" in norm(w.test) \
                         and core_ in (["append", "advance", "fetch"],)
-                iterates = shape and len(incs) == 1 and len(starts) == 1 and len(other_writes) == 1
+                    iterates = shape and len(incs) == 1 and len(starts) == 1 and len(other_writes) == 1
         rep.ob("R6.6-dump-every-entry", unconditional, Loc(HEAP_PY, gs.lineno, f"{cls.name}.__getstate__"),
                "heap_entries.append(...) unconditionally for every entry returned by the heap",
                "every entry still stored in the C heap must be pickled (also trashed ones and ones tied with the last returned time): "
@@ -707,6 +714,11 @@ def check_delete_events(unit: CUnit, rep: Report) -> None:
     else:
         lbody, inc = lp.children[1], None
 
+    # which branch of the test handles an entry of the handler: `==` -> the then-branch, `!=` -> the else-branch
+    cmp_ = next((x for x in [cond] + list(cond.walk()) if x.kind == "BinaryOperator" and x.props.get("opcode") in ("==", "!=")), None)
+    then_matches = cmp_ is None or cmp_.props.get("opcode") == "=="
+    match_branch = test.children[1] if then_matches else (test.children[2] if len(test.children) > 2 else None)
+
     def incs(n: CNode) -> int:
         return sum(1 for x in n.walk() if x.kind == "UnaryOperator" and x.props.get("opcode") == "++" and text(x.children[0]) == idx) + \
             sum(1 for x in n.walk() if x.kind == "CompoundAssignOperator" and x.props.get("opcode") == "+=" and text(x.children[0]) == idx)
@@ -728,12 +740,12 @@ def check_delete_events(unit: CUnit, rep: Report) -> None:
         if n.kind == "IfStmt":
             is_test = n is test
             out = []
-            for (m2, k2, d2) in paths(n.children[1], True if is_test else matched):
+            for (m2, k2, d2) in paths(n.children[1], then_matches if is_test else matched):
                 out.append((m2, k2, d2))
             if len(n.children) > 2:
-                out += paths(n.children[2], False if is_test else matched)
+                out += paths(n.children[2], (not then_matches) if is_test else matched)
             else:
-                out.append((False if is_test else matched, 0, False))
+                out.append(((not then_matches) if is_test else matched, 0, False))
             return out
         if n.kind == "ContinueStmt":
             return [(matched, 0, True)]
@@ -750,8 +762,17 @@ def check_delete_events(unit: CUnit, rep: Report) -> None:
             ok = False
         if m is False and total != 1:
             ok = False
-    writes = [n for n in test.children[1].walk() if n.kind == "BinaryOperator" and n.props.get("opcode") == "=" and "--" in text(n.children[1])]
-    rep.ob("R6.4-delete-all-entries", ok and len(writes) == 1, Loc(HEAP_C, lp.line, "delete_events"), f"removal loop: {sorted(set(detail))}",
+    # the gap is filled with the last entry and the heap shrinks by one: entries[idx] = entries[<.. length ..>], one decrement of length
+    writes = []
+    decs = 0
+    if match_branch is not None:
+        writes = [n for n in match_branch.walk() if n.kind == "BinaryOperator" and n.props.get("opcode") == "="
+                  and strip(n.children[0]).kind == "ArraySubscriptExpr" and text(strip(n.children[0]).children[1]) == idx
+                  and "length" in text(n.children[1])]
+        decs = sum(1 for x in match_branch.walk() if (x.kind == "UnaryOperator" and x.props.get("opcode") == "--" and "length" in text(x.children[0]))
+                   or (x.kind == "CompoundAssignOperator" and x.props.get("opcode") == "-=" and "length" in text(x.children[0])
+                       and text(x.children[1]) == "1"))
+    rep.ob("R6.4-delete-all-entries", ok and len(writes) == 1 and decs == 1, Loc(HEAP_C, lp.line, "delete_events"), f"removal loop: {sorted(set(detail))}",
            "after an entry of the handler is overwritten by the last heap entry the same index must be examined again (the "
            "moved-in entry can belong to the handler as well), and a non-matching index must advance by one: otherwise a "
            "trashed entry survives the counter reset and becomes live again")
@@ -809,14 +830,38 @@ def analyse(src: Source) -> List[Report]:
     # entry(i) must return element i + 1 (skipping the artificial 0th item) exactly when i + 1 < length
     eb = unit.body("entry")
     ifs = [n for n in eb.walk() if n.kind == "IfStmt"]
+    idx_param = unit.params("entry")[1]
+    # locals with one initialiser and no other assignment stand for their initialiser
+    inits: Dict[str, str] = {}
+    for d in eb.walk():
+        if d.kind == "VarDecl" and d.children:
+            inits[d.props.get("name")] = text(d.children[-1])
+    for a in eb.walk():
+        if a.kind in ("BinaryOperator", "CompoundAssignOperator") and a.props.get("opcode", "").endswith("=") and a.props.get("opcode") not in ("==", "!=", "<=", ">=") \
+                and strip(a.children[0]).kind == "DeclRefExpr":
+            inits.pop(strip(a.children[0]).props.get("ref"), None)
+
+    def rtext(n: CNode) -> str:
+        t = text(n)
+        for name, init in inits.items():
+            if t == name:
+                return init if init.startswith("(") else f"({init})" if " " in init else init
+        return t
+    want_idx = f"({idx_param} + 1)"
     ok = False
     if len(ifs) == 1:
         c = strip(ifs[0].children[0])
-        subs = [n for n in ifs[0].children[1].walk() if n.kind == "ArraySubscriptExpr"]
-        if c.kind == "BinaryOperator" and c.props.get("opcode") == "<" and len(subs) == 1:
-            idx_param = unit.params("entry")[1]
-            ok = text(c.children[0]) == f"({idx_param} + 1)" and text(c.children[1]).endswith("length") \
-                and text(subs[0].children[1]) == f"({idx_param} + 1)"
+        then_subs = [n for n in ifs[0].children[1].walk() if n.kind == "ArraySubscriptExpr"]
+        all_subs = [n for n in eb.walk() if n.kind == "ArraySubscriptExpr"]
+        if c.kind == "BinaryOperator" and len(all_subs) == 1 and rtext(all_subs[0].children[1]) == want_idx:
+            op, l, r = c.props.get("opcode"), rtext(c.children[0]), rtext(c.children[1])
+            in_range_then = (op == "<" and l == want_idx and r.endswith("length")) or (op == ">" and r == want_idx and l.endswith("length"))
+            out_of_range_then = (op == ">=" and l == want_idx and r.endswith("length")) or (op == "<=" and r == want_idx and l.endswith("length"))
+            if in_range_then:
+                ok = len(then_subs) == 1
+            elif out_of_range_then:
+                # guard: the out-of-range case returns first (no entry read in it), the entry is read afterwards / in the else branch
+                ok = not then_subs and any(x.kind == "ReturnStmt" for x in ifs[0].children[1].walk())
     rep.ob("R6.6-entry-enumerates-live-slots", ok, Loc(HEAP_C, ifs[0].line if ifs else 0, "entry"),
            text(ifs[0].children[0]) if ifs else "entry",
            "entry(i) must return slot i + 1 (slot 0 is the artificial minus-infinity item) for exactly the i with "
